@@ -334,6 +334,16 @@ class Check:
                 # only standard-library axioms are tolerated; they are reported in trusted_base
                 pass
         self.discharged = len(names)
+        if self.tier == "thorough":
+            # independent re-check of the compiled closure of Props/<id>.vo, with its axiom summary
+            with Lock():
+                rc, out = sh(["bash", "-c", "ulimit -s unlimited 2>/dev/null; timeout 3000 coqchk -silent -o -Q . Verif Verif.Props.%s" % self.pid], cwd=COQ)
+            summ = out[out.find("CONTEXT SUMMARY"):] if "CONTEXT SUMMARY" in out else out[-800:]
+            self.assumptions["coqchk"] = " ".join(summ.split())
+            self.checker_cmd += " && coqchk -silent -o -Q . Verif Verif.Props.%s" % self.pid
+            if rc != 0:
+                self.broken.append({"kind": "proof", "where": "coqchk Props/%s" % self.pid, "theorem": "coqchk re-check", "log": out[-1500:]})
+                return False
         return True
 
     def model_ok(self):
